@@ -287,10 +287,131 @@ def run(ctx):
             if m != e:
                 res.corr_disagreements.append(("helpers.merge_attributes", tag, m[:800], e[:800]))
 
-    # TODO(create_introns): generated GFF3/GTF gene models (1-5 exons, either strand, no ties in start): the introns
-    #   are `oracle_gaps` of the start-ordered exon children of each transcript; model: Inter.interfeatures per parent.
-    # TODO(create_splice_sites): [start, start+1] and [end-1, end] of each such intron, five/three prime by side and
-    #   transcript strand.
+    # ---- database-backed clauses: create_introns / create_splice_sites ------------------------------------------------
+    import os
+    import dbside
+    import gen_db
+    from common import enc
+    r2 = ctx.rng("introns")
+    dcmds, dexp, dtags = [], [], []
+
+    def gene_models(gtf):
+        """1-3 genes x 1-3 transcripts x 1-5 exons, either strand, exon starts pairwise different per transcript"""
+        lines, models = [], []
+        for g in range(r2.randrange(1, 4)):
+            gid = "g%d" % g
+            strand = r2.choice("+-")
+            seqid = r2.choice(["chr1", "chr2"])
+            tx = []
+            for t in range(r2.randrange(1, 4)):
+                tid = "%st%d" % (gid, t)
+                pos = r2.randrange(1, 300)
+                exons = []
+                for e in range(r2.randrange(1, 6)):
+                    ln = r2.randrange(1, 80)
+                    exons.append((pos, pos + ln - 1))
+                    pos += ln + r2.choice([0, 0, 1, 2, 30, 200])       # touching exons (gap 0) give no intron
+                tx.append((tid, exons))
+            models.append((gid, seqid, strand, tx))
+            allx = [x for _, ex in tx for x in ex]
+            gs, ge = min(a for a, b in allx), max(b for a, b in allx)
+            if not gtf:
+                lines.append(gen_db.gff_line(seqid, "gene", gs, ge, strand, [("ID", [gid])]))
+            for tid, exons in tx:
+                if not gtf:
+                    lines.append(gen_db.gff_line(seqid, "mRNA", exons[0][0], exons[-1][1], strand, [("ID", [tid]), ("Parent", [gid])]))
+                order = list(range(len(exons)))
+                r2.shuffle(order)
+                for i in order:
+                    a, b = exons[i]
+                    if gtf:
+                        lines.append(gen_db.gtf_line(seqid, "exon", a, b, strand, [("gene_id", [gid]), ("transcript_id", [tid]), ("ID", ["%se%d" % (tid, i)])]))
+                    else:
+                        lines.append(gen_db.gff_line(seqid, "exon", a, b, strand, [("ID", ["%se%d" % (tid, i)]), ("Parent", [tid])]))
+        return lines, models
+
+    def expected_introns(models):
+        out = []
+        for gid, seqid, strand, tx in models:
+            for tid, exons in tx:
+                ex = sorted(exons)
+                for (a1, b1), (a2, b2) in zip(ex, ex[1:]):
+                    if b1 + 1 <= a2 - 1:
+                        out.append((seqid, b1 + 1, a2 - 1, strand, tid))
+        return out
+
+    nmodels = 30 if not ctx.thorough else 400
+    for mi in range(nmodels):
+        gtf = r2.random() < 0.4
+        lines, models = gene_models(gtf)
+        path = dbside.write_lines(os.path.join(ctx.scratch, "introns." + ("gtf" if gtf else "gff3")), lines)
+        db, rep = dbside.py_create(path, dbside.Cfg())
+        if db is None:
+            res.oracle_failures.append(("create_db raised on a gene model: " + rep, {"lines": lines}))
+            continue
+        before = dbside.dump(db)
+        inp = {"lines": lines}
+        res.evaluations += 1
+        res.count("gene_models_gtf" if gtf else "gene_models_gff3")
+        want = expected_introns(models)
+        use_parent = (not gtf) and r2.random() < 0.3
+        kw = dict(grandparent_featuretype=None, parent_featuretype="mRNA") if use_parent else {}
+        try:
+            introns = list(db.create_introns(**kw))
+            got = sorted((f.seqid, f.start, f.end, f.strand) for f in introns)
+            if got != sorted(w[:4] for w in want) or any(f.featuretype != "intron" for f in introns):
+                res.oracle_failures.append(("create_introns does not yield exactly the gaps between the start-ordered "
+                                            "exons of each transcript", dict(inp, returned=got, expected=sorted(w[:4] for w in want))))
+            for f in introns:
+                if f.bin != __import__("gffutils").bins.bins(f.start, f.end, one=True):
+                    res.oracle_failures.append(("an intron's bin is not bins(start, end)", dict(inp, intron=str(f))))
+            res.nontriv(("introns", tuple(lines)))
+            dcmds.append(dbside.cmd_create(lines, dbside.Cfg())); dexp.append(rep); dtags.append(("create_db", repr(lines)))
+            gpw, ptw = ("~", enc("mRNA")) if use_parent else (enc("gene"), "~")
+            dcmds.append("introns %s %s %s %s 1 0" % (gpw, ptw, enc("exon"), enc("intron")))
+            dexp.append(("FEATS", [pyside.enc_feature(f) for f in introns])); dtags.append(("create_introns", repr(lines)))
+        except Exception as ex:
+            res.oracle_failures.append(("create_introns raised %r" % ex, inp))
+            continue
+        # splice sites
+        try:
+            sites = list(db.create_splice_sites(**kw))
+            exp_sites = []
+            for side in ("left", "right"):
+                for (seqid, a, b, strand, tid) in want:
+                    if side == "left":
+                        ft = {"+": "five_prime_cis_splice_site", "-": "three_prime_cis_splice_site"}.get(strand, "splice_site")
+                        exp_sites.append((seqid, a, a + 1, strand, ft))
+                    else:
+                        ft = {"+": "three_prime_cis_splice_site", "-": "five_prime_cis_splice_site"}.get(strand, "splice_site")
+                        exp_sites.append((seqid, b - 1, b, strand, ft))
+            got = [(f.seqid, f.start, f.end, f.strand, f.featuretype) for f in sites]
+            half = len(got) // 2
+            ok = sorted(got) == sorted(exp_sites) and sorted(got[:half]) == sorted(exp_sites[:half])
+            if not ok:
+                res.oracle_failures.append(("create_splice_sites does not yield the two-base sites [start,start+1] / "
+                                            "[end-1,end] of each intron labelled by side and strand (left sites first)",
+                                            dict(inp, returned=got, expected=exp_sites)))
+            for f in sites:
+                if not f.attributes["ID"][0].startswith(f.featuretype + "_"):
+                    res.oracle_failures.append(("a splice site's ID is not prefixed with its type", dict(inp, site=str(f))))
+            dcmds.append("splice %s %s %s 1 0" % (gpw, ptw, enc("exon")))
+            dexp.append(("FEATS", [pyside.enc_feature(f) for f in sites])); dtags.append(("create_splice_sites", repr(lines)))
+        except Exception as ex:
+            res.oracle_failures.append(("create_splice_sites raised %r" % ex, inp))
+        if dbside.dump(db) != before:
+            res.oracle_failures.append(("create_introns / create_splice_sites changed the database", inp))
+    dout = ctx.model([c for c in dcmds if c]) if dcmds else None
+    if dout is not None:
+        for c, m, e, (comp, inpx) in zip([c for c in dcmds if c], dout, dexp, dtags):
+            res.corr_checked += 1
+            if isinstance(e, tuple):
+                # children(level=1) of a gene come in unspecified SQL order: compare the yielded features as a multiset
+                ms = sorted(m.split(" ", 2)[2].split(" / ")) if m.startswith("ok ") and m.split(" ")[1] != "0" else []
+                if ms != sorted(e[1]):
+                    res.corr_disagreements.append((comp, inpx[:800], m[:600], " / ".join(e[1])[:600]))
+            elif m != e:
+                res.corr_disagreements.append((comp, inpx[:800], m[:300], e[:300]))
     res.assumptions = [
         "coordinates are integers (a None coordinate on a same-seqid pair is a TypeError: compared with the model only)",
         "attribute values handed to numeric_sort are in the decimal grammar or do not parse as float at all",
@@ -299,7 +420,8 @@ def run(ctx):
         "the property does not say where `score`, `frame` and `id` of an interfeature come from: the code takes them from "
         "the FIRST feature of the seqid run (in-place dict); the model follows it (theorem interfeature_fields), the "
         "oracle does not judge these columns",
-        "create_introns / create_splice_sites (database-backed clauses) are not covered by this module yet",
+        "gene models for create_introns / create_splice_sites: exons of a transcript have pairwise different starts "
+        "(SQL leaves ties unordered) and carry an ID attribute",
     ]
     return res
 
